@@ -258,6 +258,13 @@ func (w *World) addrOf(name string) string {
 		// mixed case is not valid bech32: it does NOT decode to the module address
 		a := w.acct["orb"].String()
 		return a[:10] + strings.ToUpper(a[10:])
+	case "F1_UPPER":
+		return strings.ToUpper(w.acct["F1"].String())
+	case "F1_MIXED":
+		a := w.acct["F1"].String()
+		return a[:10] + strings.ToUpper(a[10:])
+	case "F1_SPACE":
+		return w.acct["F1"].String() + " "
 	case "AUTH_MODNAME":
 		return "gov" // the bare module name: not an address, does not denote the authority
 	case "AUTH_UPPER":
@@ -364,6 +371,8 @@ func (w *World) actJSON(a Act) string {
 		attrs = fmt.Sprintf(`{"@type":%s,"destination_domain":0,"mint_recipient":%s}`, jstr(attrURL["CCTP"]), jstr(b64(w.bytes32["MINT_A"])))
 	case "TEST":
 		attrs = fmt.Sprintf(`{"@type":%s,"whatever":"x"}`, jstr(attrURL["TEST"]))
+	case "TEST3":
+		attrs = fmt.Sprintf(`{"@type":%s,"whatever":"x3"}`, jstr(attrURL["TEST"]))
 	default:
 		attrs = fmt.Sprintf(`{"@type":%s}`, jstr(attrURL[a.At]))
 	}
